@@ -363,7 +363,30 @@ func (g *Gen) genMisuse(t *rapid.T) *Op {
 		}
 	case "dead-target":
 		d := rapid.SampledFrom(dead).Draw(t, "deadTarget")
-		switch rapid.IntRange(0, 2).Draw(t, "deadTargetOp") {
+		kind := rapid.IntRange(0, 3).Draw(t, "deadTargetOp")
+		if kind == 3 {
+			// a remove-only Exchange through the ID-based API that names a removed entity as target of a relation the
+			// entity keeps
+			var cand []int
+			for _, s := range alive {
+				e := &m.Ents[s]
+				if e.Mask&comps.RelMask != 0 && e.Mask&^comps.RelMask != 0 {
+					cand = append(cand, s)
+				}
+			}
+			if len(cand) == 0 {
+				kind = 1
+			} else {
+				s := rapid.SampledFrom(cand).Draw(t, "entity")
+				e := &m.Ents[s]
+				r := rapid.SampledFrom(listOf(e.Mask&comps.RelMask)).Draw(t, "keptRelation")
+				c := rapid.SampledFrom(listOf(e.Mask&^comps.RelMask)).Draw(t, "removed")
+				op = &Op{K: "exchange", P: PUnsafe, E: s, Rem: []int{c}, Mode: 2, Rels: []RelSpec{{C: r, T: d, S: 2}}}
+				op.Sub = class
+				return op
+			}
+		}
+		switch kind {
 		case 0:
 			op = g.genSetRel(t)
 			if op.K != "setRel" {
@@ -569,4 +592,56 @@ func (it *Interp) opObsBad(op *Op) {
 		o.Register(b.W)
 	})
 	it.checkObserverCount()
+}
+
+// opBulkObs registers op.N observers that can never fire (they require and exclude the same component), checks the
+// observer figure of the statistics, unregisters them in a drawn pattern and checks again. The model's observers are
+// not touched; at the end none of the extra observers is left.
+func (it *Interp) opBulkObs(op *Op) {
+	base := 0
+	for _, o := range it.M.Obs {
+		if o.Registered {
+			base++
+		}
+	}
+	it.run(op, true, func(b *Backend) {
+		if b.Pol.DropObsOdd {
+			return // this backend's own observer count differs from the model's
+		}
+		c := compsOf(op.Comps)
+		var l []*ecs.Observer
+		for i := 0; i < op.N; i++ {
+			o := ecs.Observe(b.evT[EvCustom1]).With(c...).Without(c...).Do(func(e ecs.Entity) {
+				fail("events|bulkObs|fired", "%s: an observer that requires and excludes the same component fired for %v", b.Name, e)
+			})
+			o.Register(b.W)
+			l = append(l, o)
+			if i%50 == 49 || i == op.N-1 {
+				if got := b.W.Stats().Observers; !b.Pol.SkipStats && got != base+i+1 {
+					fail("stats|observers|count", "%s step %d: %d observers registered, Stats.Observers=%d", b.Name, it.Step, base+i+1, got)
+				}
+			}
+		}
+		for i, o := range l {
+			if i%2 == op.Mode%2 {
+				o.Unregister(b.W)
+			}
+		}
+		left := 0
+		for i := range l {
+			if i%2 != op.Mode%2 {
+				left++
+			}
+		}
+		if got := b.W.Stats().Observers; !b.Pol.SkipStats && got != base+left {
+			fail("stats|observers|count", "%s step %d: %d observers registered after unregistering every other one, Stats.Observers=%d", b.Name, it.Step, base+left, got)
+		}
+		for i, o := range l {
+			if i%2 != op.Mode%2 {
+				o.Unregister(b.W)
+			}
+		}
+	})
+	it.checkObserverCount()
+	it.count("bulk-observers")
 }
